@@ -26,6 +26,7 @@ SHAPES = [
     ("expand", [[1, 0], [0, 1]], True, Q),
     ("expand", [[1, 1]], False, Q, dict(params=dict(built="merge"))), ("expand", [[1, 0], [0, 1]], True, Q, dict(params=dict(built="merge"))),
     ("expand", [[1, 1]], False, Q, dict(params=dict(records_as="iter"))),
+    ("expand", [[1, 0], [1, 0]], False, Q, dict(params=dict(built="grow"), shard=5)), ("expand", [[1, 1]], False, Q, dict(params=dict(built="used"))),
     ("expand", [[1, 0]], False, T, dict(params=dict(wide=12), budget=900)),
     ("expand", [[2, 2]], True, T), ("expand", [[1, 1], [1, 1]], True, T, dict(budget=900, shard=6)),
     ("expand", [[1, 0], [1, 0], [1, 0]], False, T, dict(budget=1500, shard=8)),
@@ -48,7 +49,13 @@ def build(job):
         from .common import get_delim
         delim0 = get_delim(eng, params.get("symdelim", False))
         curie, P, I = mk_curie(eng, delim0)
-        recs, delim, c = fixture(eng, params, warm=lambda cv: (cv.expand(curie), cv.expand_all(curie), cv.is_curie(curie)))
+        wcurie, WP, WI = mk_curie(eng, delim0, tag="w")      # an independent earlier query (any prefix, known or not)
+
+        def warm(cv):
+            for cu, pp, ii in ((curie, P, I), (wcurie, WP, WI)):
+                cv.expand(cu), cv.expand_all(cu), cv.is_curie(cu), cv.expand_pair(pp, ii), cv.expand_pair_all(pp, ii)
+                cv.standardize_prefix(pp), cv.get_record(pp)
+        recs, delim, c = fixture(eng, params, warm=warm)
         p, i = _s(P), _s(I)
         got = c.expand(curie)
         pair = c.expand_pair(P, I)
